@@ -152,6 +152,11 @@ pub fn run(config: Config) -> ::anyhow::Result<()> {
             .name("signals".into())
             .spawn(move || {
                 for signal in &mut signals {
+                    #[cfg(feature = "verif-hooks")]
+                    if aquatic_common::verif_hooks::fault_point("signals") {
+                        return Ok(());
+                    }
+
                     match signal {
                         SIGUSR1 => {
                             let _ = update_access_list(&config.access_list, &state.access_list);
